@@ -94,3 +94,20 @@ def rScalars {α : Type} [Codec α] (l : List α) : String :=
 def rInts (l : List Int) : String := " ".intercalate (l.map toString)
 
 end D3
+
+namespace D3
+/-! vector helpers for driver modules (import D3.Model.Vec in the module that uses them) -/
+end D3
+
+namespace D3
+
+def ratToFloat (q : Rat) : Float := Float.ofInt q.num / Float.ofNat q.den
+def floatToRat (x : Float) : Rat := (floatBitsToRat x.toBits.toNat).getD 0
+
+/-- transcendental functions at `Rat` go through `Float` (approximate; the driver's Q mode is
+only used for functions that do not call them, or the result is flagged by the harness) -/
+instance : HasAtan2 Rat := ⟨fun y x => floatToRat (Float.atan2 (ratToFloat y) (ratToFloat x))⟩
+instance : HasTrig Rat :=
+  ⟨fun x => floatToRat (Float.sin (ratToFloat x)), fun x => floatToRat (Float.cos (ratToFloat x))⟩
+
+end D3
